@@ -396,6 +396,7 @@ func familySched(t *testing.T) {
 	stress(rng)
 	coldBurst()
 	refreshBurst()
+	rotationOverlap()
 	T.finish()
 }
 
@@ -778,5 +779,87 @@ func refreshBurst() {
 	}
 	if n := wrongIdentity.Load(); n > 0 {
 		T.oracle("C05", "concurrent refreshes: a forwarded request carries another browser's identity", M{"count": n}, rp)
+	}
+}
+
+// rotationOverlap (C05; needs the hooks): the provider withdraws a signing key; a request that already holds the old key set is held
+// at its key conversion while another request makes the instance fetch the new key set. Afterwards every request is answered as
+// it would be on an instance that serves it alone: a token signed with the withdrawn key is no longer accepted.
+func rotationOverlap() {
+	if !hooksOn {
+		return
+	}
+	k1, k2 := keys()["p256a"], keys()["p256b"]
+	for round := 0; round < T.size(2, 6); round++ {
+		p := newProvider(k1, k2)
+		inst := newInstance(p, &down{}, nil)
+		jx, jy := jar{}, jar{}
+		if !loginWith(inst, p, jx, "x@example.com", time.Hour, "") { // (signed with the first key: k1)
+			return
+		}
+		p.mu.Lock()
+		p.keys = []*signKey{k2, k1}
+		p.mu.Unlock()
+		if !loginWith(inst, p, jy, "y@example.com", time.Hour, "") { // (signed with k2)
+			return
+		}
+		serve := func(h http.Handler, j jar, path string) int {
+			req := httptest.NewRequest("GET", "http://app.test"+path, nil)
+			j.addTo(req)
+			rec := httptest.NewRecorder()
+			func() {
+				defer func() {
+					if recover() != nil {
+						rec.Code = -1
+					}
+				}()
+				h.ServeHTTP(rec, req)
+			}()
+			return rec.Code
+		}
+		before := serve(inst, jx, "/x0")
+		expireKeySet(inst) // an ordinary hourly refresh of the key set is due (k1 is still published)
+		entered, release := make(chan struct{}), make(chan struct{})
+		var once sync.Once
+		restore := onKeyConversion(func(string) {
+			first := false
+			once.Do(func() { first = true })
+			if first {
+				close(entered)
+				<-release
+			}
+		})
+		r1 := make(chan int, 1)
+		go func() { r1 <- serve(inst, jx, "/x1") }() // holds the key set it was given; stops at its key conversion
+		reached := true
+		select {
+		case <-entered:
+		case <-time.After(3 * time.Second):
+			reached = false
+		}
+		var c2 int
+		if reached {
+			p.mu.Lock()
+			p.keys = []*signKey{k2} // the provider withdraws k1 ...
+			p.mu.Unlock()
+			expireKeySet(inst)           // ... the cached key set runs out ...
+			c2 = serve(inst, jy, "/y1") // ... and this request makes the instance fetch the new one
+		}
+		once.Do(func() {})
+		close(release)
+		c1 := <-r1
+		restore()
+		if !reached {
+			continue
+		}
+		after := serve(inst, jx, "/x2")
+		solo := serve(newInstance(p, &down{}, nil), jx, "/x2") // the same request on an instance that serves nothing else
+		T.stat("sched.rotation-overlaps")
+		if after != solo {
+			T.oracle("C05", "a request is answered differently from serving it alone: after two requests overlapped around a key-set refresh, a token signed with a key the provider has withdrawn is accepted",
+				M{"before_withdrawal": before, "held_request": c1, "refetching_request": c2, "afterwards": after, "served_alone": solo},
+				M{"family": "sched", "rotationOverlap": true, "what": "X logs in under key k1, Y under k2; a refresh of the key set is due; X's request fetches it and is held at its key conversion; the provider withdraws k1 and the key cache runs out; Y's request refetches; X's request is released; X's next request is compared with the same request on a fresh instance"})
+			return
+		}
 	}
 }
